@@ -291,7 +291,7 @@ class RuleGen:
         if same and rng.random() < 0.75:
             return rng.choice(same) + suffix(w)
         if self.allow_def and rng.random() < 0.7:
-            base = prefix + rng.choice(["", "-1", "-2", "_a", "-Acc", "_B", "-Ptr2", ".acc", ".r.1", "-1", "_a"])
+            base = prefix + rng.choice(["", "-1", "-2", "_a", "-Acc", "_B", "-Ptr2", ".acc", ".r.1", "-1", "_a", "-16", "-32", "_64", "-8l", "_8H", "16"])
             if any(b == base for b, _, _ in self.regcaps):
                 return None
             self.regcaps.append((base, fam, letter))
@@ -458,6 +458,8 @@ class RuleGen:
                 tw = self.near_twin(good[0])
                 if tw is not None and rng.random() < 0.5:
                     alts.append(tw)           # same shape as the good alternative, different two levels down
+                if self.icaps and rng.random() < 0.35:
+                    alts.append(rng.choice(self.icaps)[0])      # a later occurrence of an instruction capture as one alternative
                 if rng.random() < 0.3 and left >= 2:
                     two = self.seq_for(idx, 2, depth + 1)
                     if two:
